@@ -6,6 +6,8 @@ CONSTANTS
   AliasTargets = {1,3}
   MaxNum = 3
   MaxOps = 100
+  Order <- OrderReal
+  Jumps = TRUE
 VIEW View
 INVARIANT Inv
 PROPERTY StepProp
